@@ -64,6 +64,9 @@ type Run struct {
 
 	progress *os.File
 	casesRun int64
+
+	quiet     bool
+	collected []map[string]any
 }
 
 // ScratchBase returns the directory under which run-time scratch directories are created.
@@ -317,6 +320,11 @@ func (r *Run) Violation(caseID, kind string, detail any) {
 	r.violationIDs[caseID+"|"+kind] = true
 	r.violations++
 	n := r.violations
+	if r.quiet {
+		r.collected = append(r.collected, map[string]any{"case_id": caseID, "kind": kind, "detail": detail})
+		r.mu.Unlock()
+		return
+	}
 	r.mu.Unlock()
 	if n > 200 {
 		return // enough witnesses; keep counting only
@@ -485,3 +493,26 @@ func Digest(v any) string {
 
 // Q quotes arbitrary bytes for JSON-safe, readable witnesses.
 func Q(s string) string { return fmt.Sprintf("%q", s) }
+
+// NewDetachedRNG is RNG() without a Run (used by child workers that must reproduce the orchestrator's stream).
+func NewDetachedRNG(seed int64, prop, name string) *rand.Rand {
+	h := sha256.Sum256([]byte(fmt.Sprintf("%d|%s|%s", seed, prop, name)))
+	return rand.New(rand.NewSource(int64(binary.LittleEndian.Uint64(h[:8]))))
+}
+
+// NewQuietRun returns a Run that collects violations instead of printing them (for child workers that report to
+// their parent through their own output).
+func NewQuietRun(prop string) *Run {
+	return &Run{
+		Prop: prop, Tier: "quick", Seed: 1, Level: "exploration", quiet: true, start: time.Now(),
+		distinct: map[[16]byte]struct{}{}, counts: map[string]int64{}, sets: map[string]map[string]struct{}{}, maxima: map[string]int64{},
+		sampleKinds: map[string]int{}, extra: map[string]any{}, violationIDs: map[string]bool{}, knownSeen: map[string]int{}, known: map[string]string{},
+	}
+}
+
+// TakeViolations returns the violations collected by a quiet run.
+func (r *Run) TakeViolations() []map[string]any {
+	r.mu.Lock()
+	defer r.mu.Unlock()
+	return r.collected
+}
